@@ -11,7 +11,7 @@ TECHNIQUE = "static analysis over type-checked MIR: guarded-table extraction of 
 LEVEL_TEXT = """Static decision of the table clauses only (the recursive parser as a whole — nesting, arguments, adjacency — and date formatting are NOT claimed): (T1) the formatter-name table extracted from From<Piece> for Chunk: {d,date}->Time {f,file}->File {h,highlight}->Highlight {D,debug}->Debug {R,release}->Release {l,level}->Level {L,line}->Line {m,message}->Message {M,module}->Module {P,pid}->ProcessId {i,tid}->SystemThreadId {n}->Newline {t,target}->Target {T,thread}->Thread {I,thread_id}->ThreadId {X,mdc}->Mdc {""}->Align, equal to the names listed in the module documentation; (T2) FormattedChunk::encode's accessor table: Level->record.level(), Message->record.args(), Module/File/Line->record.module_path()/file()/line() with "???" exactly on their None edges, Target->record.target(), Thread->thread::current().name() (unnamed), ThreadId->thread_id::get, ProcessId->process::id, SystemThreadId->the TID thread-local, Newline->NEWLINE, Mdc->log_mdc::get(key) with the default, Time->{Utc,Local}::now().format(fmt) per zone; (T3) the children loop of Debug is reachable and that of Release is not in a dev build after constant folding, and the reverse in a release build; (T4) the Highlight arm only sets styles and encodes its children; (T5) in the parser, doubled and backslash-escaped {, }, (, ) and \\\\ produce a text piece of exactly that character; (T7) the date format string is either the default "%+" or accumulated from every piece of the first argument, in order, with no early exit; (T8) in the parser no byte quantity (str::len, find offsets) steps the character cursor and no character count slices the pattern, so literal text containing multi-byte characters is delimited like ASCII text; (T6) every chunk loop iterates forward, encoding each child once, and PatternEncoder::new collects the parser's pieces in order."""
 LEVEL_NOTE = "Trusted: rustc MIR/callee resolution; log::Record accessors; chrono formatting; the parser's recursive structure beyond the escape table is not analysed for semantic equivalence with the documented grammar."
 EXPLANATION = """Decided: T1 name table (+doc cross-check), T2 accessor table and placeholders, T3 profile gating (dev + release configs), T4 highlight adds only style, T5 escape table, T6 forward order. Undecided: the recursive parser as a whole (nesting, argument handling, adjacency of pieces), date formatting results."""
-DECIDED = ["T1", "T2", "T3", "T4", "T5", "T6", "T7", "T8"]
+DECIDED = ["T1", "T2", "T3", "T4", "T5", "T6", "T7", "T8", "T9 width writers charge what was consumed (C10.A7)", "T10 right-aligned text is buffered whole and replayed whole"]
 UNDECIDED = ["recursive parser semantics (nesting/arguments/adjacency)", "date formatting"]
 TRUSTED = ["rustc nightly MIR + Instance::try_resolve", "log::Record", "chrono formatting"]
 
@@ -81,11 +81,97 @@ def doc_names():
     return names
 
 
+
+def rule_right_align_replay(ctx, p, cfg, rid="T10"):
+    """Right-aligned text is held back until the padding is known.  Nothing added or dropped then means: what write() is
+    offered is buffered whole and reported as taken, and finish() hands on everything that was buffered."""
+    from rules import c10
+    with ctx.rule(rid, "right-aligned text is buffered and replayed whole", cfg) as r:
+        mine = [g for g in p.fns.values() if g.d.get("impl_self_adt") == c10.RIGHT]
+        fin = [g for g in mine if g.path.endswith("::finish")]
+        wr = [g for g in mine if g.path.endswith("as std::io::Write>::write")]
+        if len(fin) != 1 or len(wr) != 1:
+            raise AnchorMissing("RightAlignWriter::finish / io::Write::write not found")
+        fin, wr = p.fn_loops(fin[0].path), p.fn_loops(wr[0].path)
+
+        def ok_rets(f):
+            return {b for b, e in q.ret_assignments(f) if q.classify_ret(e) != "err" and not q.is_from_residual(e)}
+
+        def whole_arg(e):
+            e = deep_strip(e)
+            if e == ("param", 2):
+                return True
+            return e[0] == "call" and e[1].rsplit("::", 1)[-1] in ("to_owned", "to_vec", "into", "from", "clone") and any(whole_arg(a) for a in e[2])
+        keeps = []
+        for c in wr.calls():
+            nm = (c.callee or "").rsplit("::", 1)[-1]
+            if nm in ("extend_from_slice", "push", "extend", "append") and any(whole_arg(a) or any(x[0] == "agg" and any(whole_arg(v) for _, v in (x[3] or ())) for x in walk(a)) for a in c.arg_exprs()[1:]):
+                keeps.append(c)
+        skipped = q.const_skipping_paths(wr, 0, {c.block for c in keeps}, ok_rets(wr)) if keeps else {0}
+        r.require(bool(keeps) and not skipped, "offered-bytes-buffered-whole", fn=wr, detail="every non-error return of write() passed an append of the whole offered slice (%d append site(s))" % len(keeps),
+                  fail_detail="write() can report success without having buffered the slice it was offered")
+        rete = [e for b, e in q.ret_assignments(wr) if q.classify_ret(e) != "err" and not q.is_from_residual(e)]
+        okn = bool(rete) and all(deep_strip(e)[0] == "agg" and deep_strip(e)[2] == "Ok" and deep_strip(dict(deep_strip(e)[3]).get("0", ("?",))) == ("call", "core::slice::<impl [T]>::len", (("param", 2),)) [:3]
+                                  or (deep_strip(e)[0] == "agg" and deep_strip(e)[2] == "Ok" and deep_strip(dict(deep_strip(e)[3]).get("0", ("?",)))[:2] == ("call", "core::slice::<impl [T]>::len") and deep_strip(deep_strip(dict(deep_strip(e)[3])["0"])[2][0]) == ("param", 2))
+                                  for e in rete)
+        r.require(okn, "reports-the-offered-length", fn=wr, detail="write() returns Ok(buf.len()): %s" % [show(e, 4) for e in rete])
+        # finish(): everything buffered is handed on
+        adt = p.adt(c10.RIGHT)
+        vecs = [(fd["name"], fd["ty"]) for fd in adt["variants"][0]["fields"] if fd["ty"].startswith("alloc::vec::Vec<")]
+        rets = ok_rets(fin)
+        replays = [c for c in fin.calls() if c.callee in ("std::io::Write::write_all", "encode::Write::set_style")]
+        done = False
+        for name, ty in vecs:
+            def of_field(e):
+                return any(deep_strip(x) == ("field", ("param", 1), name) for x in walk(e))
+            if ty == "alloc::vec::Vec<u8>":
+                # one contiguous byte buffer: every non-error return passes a write of all of it, or of the run that reaches its end
+                def reaches_end(e):
+                    e = deep_strip(e)
+                    if e[0] == "call" and e[1].rsplit("::", 1)[-1] in ("deref", "as_slice", "as_ref", "borrow") and deep_strip(e[2][0]) == ("field", ("param", 1), name):
+                        return True
+                    if e == ("field", ("param", 1), name):
+                        return True
+                    if e[0] == "call" and e[1] in ("core::ops::index::Index::index",) and of_field(e[2][0]):
+                        rg = deep_strip(e[2][1])
+                        return rg[0] == "agg" and (rg[1].endswith("RangeFrom") or rg[1].endswith("RangeFull"))
+                    return False
+                tails = [c for c in replays if c.callee == "std::io::Write::write_all" and reaches_end(c.arg(1))]
+                sk = q.const_skipping_paths(fin, 0, {c.block for c in tails}, rets) if tails else set(rets)
+                r.require(bool(tails) and not sk, "buffer-written-to-its-end:%s" % name, fn=fin, detail="every non-error return of finish() passed a write_all of self.%s up to its end" % name,
+                          fail_detail="finish() can return Ok without writing self.%s to its end: the text after the last recorded position (e.g. after the last style change) is dropped" % name)
+                done = True
+                continue
+            steps = [c for c in fin.calls(NEXT) if of_field(c.arg(0))]
+            for nx in steps:
+                sw = None
+                for blk in fin.blocks:
+                    if blk["term"]["k"] == "switch" and blk["id"] in fin.reachable_blocks():
+                        si = SwitchInfo(fin, blk["id"])
+                        d = strip(si.discr)
+                        if d[0] == "discr" and strip(d[1])[0] == "call" and len(strip(d[1])) > 3 and strip(d[1])[3] == nx.block:
+                            sw = si
+                if sw is None:
+                    continue
+                elem = [c for c in replays if any(x[0] == "as" and x[2] == "Some" and strip(x[1])[0] == "call" and len(strip(x[1])) > 3 and strip(x[1])[3] == nx.block for x in walk(c.arg(1)))]
+                sk = q.const_skipping_paths(fin, sw.target_of("Some"), {c.block for c in elem}, rets | {nx.block})
+                r.require(bool(elem) and not sk, "every-buffered-item-replayed:%s" % name, fn=fin, detail="from the Some edge of the loop over self.%s every path to the next item or to a non-error return writes the item or sets its style" % name,
+                          fail_detail="an item of self.%s can be passed over without being written (bb%s reachable from the loop's Some edge without write_all/set_style of the item)" % (name, sorted(sk)))
+                it = nx.arg(0)
+                bad = [x[1].rsplit("::", 1)[-1] for x in walk(it) if x[0] == "call" and x[1].rsplit("::", 1)[-1] in ("rev", "skip", "take", "step_by", "skip_while", "take_while", "filter", "filter_map", "chain", "zip", "peekable")]
+                r.require(not bad, "whole-buffer-in-order:%s" % name, fn=fin, detail="iterator adaptors on self.%s: %s" % (name, bad))
+                # the loop ends by exhaustion only: no non-error return from inside it other than through the step
+                done = True
+        if not done:
+            raise ShapeUnrecognised("RightAlignWriter::finish: no replay of a buffer field (%s) recognised" % [n for n, _ in vecs])
+
+
 def run_cfg(ctx, p, cfg, release):
     from rules import c10
     with ctx.rule("T9", "a width argument never drops text the destination has not taken", cfg) as r:
         # the value's text passes through the width writers: what they charge to their budgets is what was consumed (C10.A7 re-evaluated)
         c10.rule_counts_consumed(r, p)
+    rule_right_align_replay(ctx, p, cfg, "T10")
     with ctx.rule("T1", "formatter name table", cfg) as r:
         f = p.fn(FROM_PIECE)
         tests = tables.string_key_tests(f)
